@@ -69,10 +69,11 @@ JudgeC10(e, rg) ==
          /\ C10Inv(e)
     [] e.op = "inv2k" ->
          /\ C10Has(e, "a") /\ C10Has(e, "kk") /\ C10Has(e, "bits") /\ C10Has(e, "k")
-         /\ e.kk >= 0 /\ e.kk <= e.bits
+         /\ e.kk >= 0 /\ e.kk <= e.bits /\ Fits(e.a, e.bits)
          /\ C10Inv2k(e)
     [] e.op = "gcd" ->
          /\ C10Has(e, "a") /\ C10Has(e, "b") /\ C10Has(e, "bits") /\ C10Has(e, "k")
+         /\ Fits(e.a, e.bits) /\ Fits(e.b, e.bits)
          /\ C10Gcd(e)
     [] OTHER -> FALSE
 =============================================================================
